@@ -242,7 +242,7 @@ theorem evalH_reach {h : Heap} : ∀ (p : Path) (a b : Addr), evalH h a p = some
       obtain ⟨c, hg, hk⟩ := stepH_kid hs
       exact .step hg hk (evalH_reach ts x b he)
 
-theorem rank_le_of_reach {h : Heap} {rank : Addr → Nat} (hr : h.RankedBy rank) {a b : Addr}
+theorem rank_le_of_reach' {h : Heap} {rank : Addr → Nat} (hr : h.RankedBy rank) {a b : Addr}
     (hab : Reach h a b) : rank b ≤ rank a := by
   induction hab with
   | refl _ => exact Nat.le_refl _
@@ -262,7 +262,7 @@ theorem evalH_write_stable {h : Heap} {rank : Addr → Nat} (hr : h.RankedBy ran
       simp only [hs] at he
       obtain ⟨cell, hg, hk⟩ := stepH_kid hs
       have hlt : rank b < rank a :=
-        Nat.lt_of_le_of_lt (rank_le_of_reach hr (evalH_reach ts x b he)) (hr a cell hg x hk)
+        Nat.lt_of_le_of_lt (rank_le_of_reach' hr (evalH_reach ts x b he)) (hr a cell hg x hk)
       have hab : a ≠ b := fun e => by subst e; exact Nat.lt_irrefl _ hlt
       have hs' : stepH (h.write b c) a t = some x := by
         unfold stepH at hs ⊢
